@@ -13,7 +13,7 @@
   `(flatten fuel d).finished`: the work list ran empty (reported by the driver, checked by the
   harness for fuel = number of instances + 5).
 -/
-import Spydr.Xform.LemmasFlatLeaves
+import Spydr.Xform.LemmasFlatWF
 
 namespace Spydr.Xform
 
@@ -34,5 +34,86 @@ theorem leaf_occurrence_unique (d : Design) (hyp : Hyp d) {cs cs' : List Inst} {
   obtain ⟨p, hp, _⟩ := h
   obtain ⟨p', hp', _⟩ := h'
   exact path_unique hyp hp hp' hid
+
+/-- Two endpoints (leaf pin bits, top-level port bits) of the original design are electrically
+    connected after flatten iff they were before.  `ConnU` is the connectivity of a uniquified
+    netlist with netlist-wide instance identifiers: the equivalence closure of "wire touches instance
+    pin (from outside or from inside) / top-level port bit"; flatten keeps the identifier of every
+    instance, so the endpoints `P iid port bit` / `T port bit` are the same nodes before and after.
+    Holds for every fuel (also for an unfinished walk). -/
+theorem flatten_preserves_conn (fuel : Nat) (d : Design) (hyp : Hyp d) (a b : UNode)
+    (ha : UEndpoint d a) (hb : UEndpoint d b) :
+    ConnU d a b ↔ ConnU (flatten fuel d).design a b := by
+  obtain ⟨moved, invA, invB⟩ := fLoop_invAB hyp fuel (fInit d) [] (FInvA.init hyp) (FInvB.init hyp)
+  exact conn_final hyp invA invB ha hb
+
+/-- The netlist stays well-formed (in particular no lifted inner pin, no pin of a removed shell and
+    no pin twice on the wires of the top definition). -/
+theorem flatten_wf (fuel : Nat) (d : Design) (hyp : Hyp d) (hfin : (flatten fuel d).finished = true) :
+    WF (flatten fuel d).design := by
+  obtain ⟨moved, invA, invB⟩ := fLoop_invAB hyp fuel (fInit d) [] (FInvA.init hyp) (FInvB.init hyp)
+  have hq : (fLoop fuel (fInit d)).queue = [] := by simpa [flatten] using hfin
+  exact wf_final hyp invA invB hq
+
+/-! ### Non-vacuity: a concrete two-level design with a feed-through satisfies the hypotheses and the
+    model really dissolves it. -/
+
+/-- leaf `0` (two one-bit ports); `1` = pass-through shell: its two ports tied by one wire, which
+    also reaches a leaf inside; top `2` holds the shell `s` and two leaves `a`, `b`, `a.P0 — s.P0`,
+    `s.P1 — b.P0`: after flatten `a.P0`, `b.P0` and the inner leaf's `P0` are one net (on wire `w2`). -/
+def exC09 : Design :=
+  { ndefs := 3
+    defs := fun i =>
+      if i = 0 then { lib := 0, name := some "leaf", eid := none, info := "", ports := [⟨1, ""⟩, ⟨1, ""⟩], cables := [], children := [] }
+      else if i = 1 then
+        { lib := 0, name := some "shell", eid := none, info := "", ports := [⟨1, ""⟩, ⟨1, ""⟩],
+          cables := [{ id := 0, name := some "t", eid := none, info := "", wires := [[.port 0 0, .port 1 0, .inst 3 0 0]] }],
+          children := [{ id := 3, name := some "u", eid := none, ref := 0, data := "" }] }
+      else if i = 2 then
+        { lib := 0, name := some "top", eid := none, info := "", ports := [],
+          cables := [{ id := 1, name := some "w1", eid := none, info := "", wires := [[.inst 0 0 0, .inst 1 0 0]] },
+                     { id := 2, name := some "w2", eid := none, info := "", wires := [[.inst 1 1 0, .inst 2 0 0]] }],
+          children := [{ id := 0, name := some "a", eid := none, ref := 0, data := "" },
+                       { id := 1, name := some "s", eid := none, ref := 1, data := "" },
+                       { id := 2, name := some "b", eid := none, ref := 0, data := "" }] }
+      else default
+    order := [[0, 1, 2]]
+    top := 2
+    extra := fun i => if i = 2 then 1 else 0
+    ctr := 0 }
+
+theorem exC09_unique : Unique exC09 := by
+  intro q c hq hc
+  have hq' : q = 2 ∨ q = 1 ∨ q = 0 := by
+    clear hc
+    induction hq with
+    | top => exact Or.inl rfl
+    | step _ hc ih =>
+      rcases ih with rfl | rfl | rfl
+      · have : _ ∈ [_, _, _] := hc
+        simp only [List.mem_cons, List.mem_nil_iff, or_false] at this
+        rcases this with rfl | rfl | rfl <;> simp
+      · have : _ ∈ [_] := hc
+        simp only [List.mem_cons, List.mem_nil_iff, or_false] at this
+        subst this; simp
+      · have : _ ∈ ([] : List Inst) := hc
+        simp at this
+  rcases hq' with rfl | rfl | rfl
+  · have : c ∈ [_, _, _] := hc
+    simp only [List.mem_cons, List.mem_nil_iff, or_false] at this
+    rcases this with rfl | rfl | rfl <;> decide
+  · have : c ∈ [_] := hc
+    simp only [List.mem_cons, List.mem_nil_iff, or_false] at this
+    subst this; decide
+  · have : c ∈ ([] : List Inst) := hc
+    simp at this
+
+example : Hyp exC09 :=
+  { wf := by decide, ids := by decide, uniq := exC09_unique, acyc := ⟨fun i => i, by decide⟩, named := by decide }
+
+example : (flatten 10 exC09).finished = true ∧
+    ((flatten 10 exC09).design.defs 2).children.map (·.name) = [some "a", some "b", some "s/u"] ∧
+    (((flatten 10 exC09).design.defs 2).cables.map (·.wires)) =
+      [[[]], [[.inst 2 0 0, .inst 0 0 0, .inst 3 0 0]], [[]]] := by decide
 
 end Spydr.Xform
